@@ -124,6 +124,18 @@ class Prop(SeqProp):
                 ops.append(" ".join(["eq"] + [f"{k} {v}" for k, v in d.items()]))
             elif kind == "smap" and op == "clear":
                 ops.append("clear")
+            elif kind == "smap" and op == "updre":
+                prev = steps[len(impl) - 1]
+                assert prev[0] == "init"
+                d = {}
+                for j in range(0, len(prev[1]), 2):
+                    d[rk(POOL[prev[1][j]])] = prev[1][j + 1]
+                la = []
+                for a in args:
+                    k = rk(POOL[a])
+                    d[k] = d.get(k, 100) + 1
+                    la += [str(k), str(d[k])]
+                ops.append(" ".join(["update"] + la))
             elif kind == "sset" or op in ("get", "has", "del", "pop"):
                 la = []
                 for a in args:
@@ -156,9 +168,14 @@ class Prop(SeqProp):
                     steps.append(("init", [pick() for _ in range(m)]))
                 else:
                     args = []
+                    reent = rng.random() < 0.15
                     for j in range(m):
-                        args += [pick(), rng.choice([0, 1, 2, 3, j + 10])]
+                        args += [pick(), (j + 10) if reent else rng.choice([0, 1, 2, 3, j + 10])]
                     steps.append(("init", args))
+                    if reent:
+                        # update() fed by a generator that reads the very map while it is consumed (a counting idiom): like a
+                        # dict, the map stores every pair as it is pulled
+                        steps.append(("updre", [pick() for _ in range(rng.randint(1, 6))]))
             vc = 100
             for _ in range(length):
                 vc += 1
@@ -340,6 +357,9 @@ class Prop(SeqProp):
                     shadow.pop(key(0), None)
                 elif op == "clear":
                     shadow = {}
+                elif op == "updre":
+                    for a_ in args:
+                        shadow[self.val(a_)] = shadow.get(self.val(a_), 100) + 1
                 elif op == "popitem":
                     kk = next((x for x in shadow if r_of(x) == r[4:].split(":")[0]), None)
                     shadow.pop(kk, None)
@@ -463,6 +483,8 @@ class Prop(SeqProp):
                         r = f"ret {len(obj)}"
                     elif op == "items":
                         r = "ret " + ",".join(f"{r_of(k)}:{codev(v)}" for k, v in obj.items())
+                    elif op == "updre":
+                        obj.update((self.val(a), obj.get(self.val(a), 100) + 1) for a in args); r = "ok"
                     elif op == "getd":
                         r = f"ret {codev(obj.get(self.val(args[0]), pyv(args[1])))}"
                     elif op == "popd":
@@ -489,7 +511,13 @@ class Prop(SeqProp):
                     raise
                 r = f"err {err_name(e)}"
             mix = None
-            if r != "bad-op":
+            if r != "bad-op" and len(out) == 2:
+                from .. import core as _core
+                mix = _core.clone_probe(obj, (lambda o: [r_of(x) for x in o.values]) if kind == "sset" else
+                                        (lambda o: ([r_of(x) for x in o.keys_storage], [codev(v) for v in o.values_storage])))
+                if mix is not None:
+                    mix = "copies of the object: " + mix
+            if r != "bad-op" and mix is None:
                 try:
                     shadow_apply(op, args, r)
                     if brng.random() < 0.2 or op == "init":
@@ -627,6 +655,9 @@ class Prop(SeqProp):
                     exp = f"ret {1 if ref == other else 0}"
                 elif op == "clear":
                     ref = {}
+                elif op == "updre":
+                    for j in range(len(args)):
+                        ref[kv(j)] = ref.get(kv(j), 100) + 1
                 res, _, dump = line.partition(" K:")
                 ks, _, vs = dump.partition(" V:")
                 try:
